@@ -102,6 +102,15 @@ func hostileMIDs(c *Ctx, n int) []string {
 		strings.Repeat("a", 240), strings.Repeat("a", 252), // around NAME_MAX, but not inside the window where only the temp name is too long
 
 		"Mid With Space", "-", "~", "*", "CON", "a\\b", "a:b", "GOODOUT00001", "GOODIN000001", "NEWMID000001", "x.b2f", "x.tmp", "X.B2F", "..x", "x..", "x/../y", "\xff\xfe", " ", "a\nb"}
+	// systematic family: (prefix that may defeat a separator scan) x (climb) x (landing place, incl. siblings whose
+	// name starts with the mailbox directory's name, which defeat a containment test by string prefix)
+	for _, pre := range []string{"", "/", "//", "a/", "./", "\\", "a/b/../", "in/"} {
+		for up := 1; up <= 4; up++ {
+			for _, land := range []string{"x", "outside/x", "mbox-1/in/x", "mbox-1/out/GOODOUT00001", "mboxX/x", "mbo/x", "mbox/../x", "mbox/in/../../escaped"} {
+				mids = append(mids, pre+strings.Repeat("../", up)+land)
+			}
+		}
+	}
 	al := []string{".", "/", "a", "\\", "\x00", "é", "..", "x", "-", "../"}
 	for i := 0; i < n; i++ {
 		var b strings.Builder
@@ -179,9 +188,12 @@ func init() {
 				os.MkdirAll(filepath.Join(sb, "outside", "in"), 0o755)
 				os.MkdirAll(filepath.Join(sb, "outside", "out"), 0o755)
 				os.MkdirAll(filepath.Join(sb, "outside", "sent"), 0o755)
+				for _, sib := range []string{"mbox-1/in", "mbox-1/out", "mbox-1/sent", "mboxX", "mbo"} {
+					os.MkdirAll(filepath.Join(sb, sib), 0o755)
+				}
 				decoy := goodOut.build()
 				db, _ := decoy.Bytes()
-				for _, p := range []string{"outside/x.b2f", "outside/decoy.b2f", "decoy.b2f", "x.b2f", "outside/in/y.b2f", "outside/out/GOODOUT00001.b2f"} {
+				for _, p := range []string{"outside/x.b2f", "outside/decoy.b2f", "decoy.b2f", "x.b2f", "outside/in/y.b2f", "outside/out/GOODOUT00001.b2f", "mbox-1/out/GOODOUT00001.b2f"} {
 					os.WriteFile(filepath.Join(sb, p), db, 0o644)
 				}
 				rb := newRealBox(root, false)
